@@ -31,6 +31,9 @@ import (
 //                                 (Context.SendRaw), sendto, parent, children, parallel, multicast,
 //                                 broadcast
 //   down <p>                      the victim stops; waits until S's receive loops reported it
+//   freeze <p>                    class silent-tcp: the victim goes silent without closing anything (its
+//                                 address stops answering, S's connection stays open); the connection
+//                                 time-out is scaled down to 1.5 s for these cases (hook VerifSetReadTimeout)
 //   pause                         S's receive loops stop reporting failures (Router.Pause)
 //   kill <p>                      the victim stops, nobody waits for S to notice
 //   up <p>                        the victim listens again (same identity, same address)
@@ -69,14 +72,16 @@ func c09Register() {
 }
 
 type c09victim struct {
-	n     int
-	kp    *key.Pair
-	sid   *network.ServerIdentity // what S uses to reach it (the proxy's address on TCP)
-	own   *network.ServerIdentity // what the victim's router listens on
-	r     *network.Router
-	up    bool
-	got   int64 // messages that reached a live incarnation
-	proxy *c09proxy
+	n      int
+	kp     *key.Pair
+	sid    *network.ServerIdentity // what S uses to reach it (the proxy's address on TCP)
+	own    *network.ServerIdentity // what the victim's router listens on
+	r      *network.Router
+	up     bool
+	got    int64 // messages that reached a live incarnation
+	proxy  *c09proxy
+	silent *c09silent
+	frozen bool
 	// does S hold a registered connection with this incarnation (harness bookkeeping for waits)
 	connected bool
 }
@@ -148,14 +153,119 @@ func (p *c09proxy) serve() {
 	}
 }
 
+// c09silent is the network between S and a TCP victim in class "silent": it forwards until it is
+// frozen; then nothing listens at the victim's address any more, the victim's side of every
+// connection is closed, and S's side stays open and silent — a peer that lost power or was cut off.
+type c09silent struct {
+	addr, target string
+	mu           sync.Mutex
+	ln           net.Listener
+	frozen       bool
+	held         []net.Conn
+}
+
+func (p *c09silent) listen() error {
+	var err error
+	for i := 0; i < 100; i++ {
+		var ln net.Listener
+		if ln, err = net.Listen("tcp", p.addr); err == nil {
+			p.mu.Lock()
+			p.ln, p.frozen = ln, false
+			p.mu.Unlock()
+			go p.serve(ln)
+			return nil
+		}
+		time.Sleep(20 * time.Millisecond)
+	}
+	return err
+}
+
+func (p *c09silent) serve(ln net.Listener) {
+	for {
+		c, err := ln.Accept()
+		if err != nil {
+			return
+		}
+		s, err := net.DialTimeout("tcp", p.target, time.Second)
+		if err != nil {
+			c.Close()
+			continue
+		}
+		p.mu.Lock()
+		p.held = append(p.held, c, s)
+		p.mu.Unlock()
+		go func() { // S -> victim; when frozen, swallow
+			buf := make([]byte, 4096)
+			for {
+				n, err := c.Read(buf)
+				if n > 0 {
+					s.Write(buf[:n])
+				}
+				if err != nil {
+					break
+				}
+			}
+			c.Close()
+			s.Close()
+		}()
+		go func() { // victim -> S
+			buf := make([]byte, 4096)
+			for {
+				n, err := s.Read(buf)
+				if n > 0 {
+					c.Write(buf[:n])
+				}
+				if err != nil {
+					break
+				}
+			}
+			p.mu.Lock()
+			fr := p.frozen
+			p.mu.Unlock()
+			if !fr {
+				c.Close()
+			}
+			s.Close()
+		}()
+	}
+}
+
+func (p *c09silent) freeze() {
+	p.mu.Lock()
+	p.frozen = true
+	if p.ln != nil {
+		p.ln.Close()
+	}
+	held := p.held
+	p.mu.Unlock()
+	for i := 1; i < len(held); i += 2 {
+		held[i].Close() // the victim's side
+	}
+}
+
+func (p *c09silent) closeAll() {
+	p.mu.Lock()
+	if p.ln != nil {
+		p.ln.Close()
+	}
+	held := p.held
+	p.held = nil
+	p.mu.Unlock()
+	for _, c := range held {
+		c.Close()
+	}
+}
+
 type c09world struct {
-	paused   bool
-	useProxy bool
-	cutArmed bool
+	silentClass bool
+	oldTimeout  time.Duration
+	paused      bool
+	useProxy    bool
+	cutArmed    bool
 	// protocol instances created for sends (on S and, through tree propagation, on S2); they are
 	// marked done before the cluster is closed
-	tnis   []*onet.TreeNodeInstance
-	s2toks []*onet.Token
+	tnis     []*onet.TreeNodeInstance
+	s2toks   []*onet.Token
 	cs       *h.Case
 	c        *h.Ctx
 	tcp      bool
@@ -203,6 +313,13 @@ func (w *c09world) start(v *c09victim) error {
 			return err
 		}
 		r = network.NewRouter(own, hst)
+		if w.silentClass && v.silent == nil {
+			v.silent = &c09silent{addr: "127.0.0.1:" + strconv.Itoa(c09port(v.n)+8), target: "127.0.0.1:" + own.Address.Port()}
+			if err := v.silent.listen(); err != nil {
+				return err
+			}
+			v.sid = network.NewServerIdentity(v.kp.Public, network.NewTCPAddress(v.silent.addr))
+		}
 		if w.useProxy && v.proxy == nil {
 			ln, err := net.Listen("tcp", "127.0.0.1:0")
 			if err != nil {
@@ -301,6 +418,12 @@ func (w *c09world) close() {
 		if v.proxy != nil {
 			v.proxy.ln.Close()
 		}
+		if v.silent != nil {
+			v.silent.closeAll()
+		}
+	}
+	if w.oldTimeout != 0 {
+		network.VerifSetReadTimeout(w.oldTimeout)
 	}
 	if w.lt != nil {
 		w.lt.CloseAll()
@@ -329,7 +452,7 @@ func (w *c09world) isUp(n int) bool {
 	if n == 0 {
 		return true
 	}
-	return w.victim(n).up
+	return w.victim(n).up && !w.victim(n).frozen
 }
 
 // tni builds a tree around S for one entry point and returns S's tree node instance together with
@@ -580,18 +703,26 @@ func (w *c09world) canaryCount() int64 { return atomic.LoadInt64(&c09canary) }
 
 var c09canary int64
 
-func (w *c09world) down(p int) string {
+func (w *c09world) down(p int, silent bool) string {
 	v := w.victim(p)
 	w.mu.Lock()
 	w.calls = nil
 	w.mu.Unlock()
-	had := v.connected && v.up
-	w.stop(v)
+	had := v.connected && v.up && !v.frozen
+	patience := 3 * time.Second
+	if silent {
+		// nothing is closed: only the read time-out of S's connection can reveal the loss
+		v.silent.freeze()
+		v.frozen = true
+		patience = 8 * time.Second
+	} else {
+		w.stop(v)
+	}
 	want := 0
 	if had {
 		want = len(w.handlers)
 	}
-	deadline := time.After(3 * time.Second)
+	deadline := time.After(patience)
 wait:
 	for {
 		w.mu.Lock()
@@ -607,6 +738,9 @@ wait:
 		}
 	}
 	// the deferred clean-up of the receive loop (close, remove from the table) follows the handlers
+	for i := 0; had && silent && len(w.handlers) == 0 && i < 8000 && w.s.VerifConnCount(v.sid.GetID()) > 0; i++ {
+		time.Sleep(time.Millisecond)
+	}
 	for i := 0; had && i < 3000 && w.s.VerifConnCount(v.sid.GetID()) > 0 && len(w.handlers) > 0; i++ {
 		time.Sleep(time.Millisecond)
 	}
@@ -628,7 +762,11 @@ wait:
 				}
 			}
 			if !found {
-				w.cs.Fail("handler-not-told", fmt.Sprintf("error handler %d was not called for lost peer %d; calls: %v", hd, p, calls))
+				how := "stopped"
+				if silent {
+					how = "went silent without closing its connections"
+				}
+				w.cs.Fail("handler-not-told", fmt.Sprintf("peer %d %s; error handler %d was not called for it within %v; calls: %v", p, how, hd, patience, calls))
 			}
 		}
 	}
@@ -637,7 +775,11 @@ wait:
 			w.cs.Fail("handler-wrong-peer", fmt.Sprintf("peer %d stopped, handler calls: %v", p, calls))
 		}
 	}
-	w.tag(fmt.Sprintf("down:calls=%d", c03bucketN(len(calls))))
+	if silent {
+		w.tag(fmt.Sprintf("freeze:calls=%d", c03bucketN(len(calls))))
+	} else {
+		w.tag(fmt.Sprintf("down:calls=%d", c03bucketN(len(calls))))
+	}
 	if len(calls) == 0 {
 		return "-"
 	}
@@ -657,6 +799,10 @@ func c09exec(c *h.Ctx, cs *h.Case) {
 		case len(tk) == 4 && tk[1] == "open" && (tk[2] == "tcp" || tk[2] == "local") && w.s == nil:
 			if ups, ok := c03ints(tk[3]); ok {
 				w.useProxy = cs.NoModel
+				w.silentClass = strings.HasPrefix(cs.Class, "silent") && tk[2] == "tcp"
+				if w.silentClass {
+					w.oldTimeout = network.VerifSetReadTimeout(1500 * time.Millisecond)
+				}
 				obs = w.open(tk[2], ups)
 			}
 		case w.s == nil:
@@ -687,7 +833,11 @@ func c09exec(c *h.Ctx, cs *h.Case) {
 			}
 		case len(tk) == 3 && tk[1] == "down":
 			if p, err := strconv.Atoi(tk[2]); err == nil && p > 0 {
-				obs = w.down(p)
+				obs = w.down(p, false)
+			}
+		case len(tk) == 3 && tk[1] == "freeze" && w.silentClass:
+			if p, err := strconv.Atoi(tk[2]); err == nil && p > 0 && w.victim(p).silent != nil && !w.victim(p).frozen {
+				obs = w.down(p, true)
 			}
 		case len(tk) == 2 && tk[1] == "pause":
 			w.s.Pause()
@@ -703,7 +853,16 @@ func c09exec(c *h.Ctx, cs *h.Case) {
 		case len(tk) == 3 && tk[1] == "up":
 			if p, err := strconv.Atoi(tk[2]); err == nil && p > 0 {
 				v := w.victim(p)
-				if v.up {
+				if v.frozen {
+					v.silent.closeAll()
+					if err := v.silent.listen(); err != nil {
+						cs.Fail("harness", err.Error())
+						obs = "harness-error"
+					} else {
+						v.frozen, v.connected = false, false
+						obs = "ok"
+					}
+				} else if v.up {
 					obs = "ok"
 				} else if err := w.start(v); err != nil {
 					cs.Fail("harness", err.Error())
@@ -865,6 +1024,21 @@ func c09gen(c *h.Ctx, yield func(*h.Case)) {
 			}
 		}
 		emit("faults-"+tr, ops...)
+	}
+	// a peer that goes silent without closing (power loss, partition): only the read time-out of
+	// the survivor's connection reveals it; then handlers, clean table, errors, recovery
+	for i := 0; i < c.Pick(8, 60); i++ {
+		ops := []string{"c09 open tcp 0,1,2", "c09 handler 10"}
+		if r.Intn(2) == 0 {
+			ops = append(ops, "c09 handler 11")
+		}
+		e := []string{"router", "raw", "sendto", "parent"}[r.Intn(4)]
+		ops = append(ops, "c09 send "+e+" 1 1", "c09 freeze 1", "c09 conns 1",
+			"c09 send "+[]string{"router", "raw", "sendto", "children"}[r.Intn(4)]+" 1 1")
+		if r.Intn(2) == 0 {
+			ops = append(ops, "c09 up 1", "c09 send router 1 "+strconv.Itoa(1+r.Intn(2)), "c09 conns 1")
+		}
+		emit("silent-tcp", ops...)
 	}
 	// stale entries on the in-memory transport (a write on them fails deterministically): the
 	// survivor's receive loops are paused, a victim it is connected to dies and comes back, the
